@@ -23,6 +23,8 @@ let run () =
   let id = ref "" and pat = ref "" and hay = ref "" in
   let ms : (int * int) list ref = ref [] in
   let fsteps = ref [] and bsteps = ref [] in
+  let ff : (int * (int * int) option) list ref = ref [] in
+  let bmodel = ref [] in
   let viol d = incr pviol; Printf.printf "PROPVIOL prop=C20 case=%s pat=%s flags=- hay=%s start=0 detail=%s\n" !id !pat !hay d in
   let bytes () = if !hay = "-" then [||] else Array.init (String.length !hay / 2) (fun i -> int_of_string ("0x" ^ String.sub !hay (2 * i) 2)) in
   let boundary b p = let n = Array.length b in p = n || (p < n && (b.(p) < 128 || b.(p) >= 192)) in
@@ -42,10 +44,21 @@ let run () =
     match split line with
     | "S" :: i :: p :: h :: _ -> incr cases; id := i; pat := p; hay := h; ms := []; fsteps := []; bsteps := []
     | "I" :: _ :: rest -> let rec go l = (match l with a :: b :: t -> (ios a, ios b) :: go t | _ -> []) in ms := go rest
+    | "G" :: rest ->
+      let rec go l = (match l with p :: "-" :: "-" :: t -> (ios p, None) :: go t | p :: a :: e :: t -> (ios p, Some (ios a, ios e)) :: go t | _ -> []) in
+      ff := go rest
     | "F" :: rest ->
       incr checks;
       let st = parse_steps rest in fsteps := st;
       let b = bytes () in let len = Array.length b in
+      (* the model of Searcher::next on the implementation's own find_from answers *)
+      let find_from p = (match List.assoc_opt (int_of_nat p) !ff with Some (Some (a, e)) -> Some (nat_of_int a, nat_of_int e) | _ -> None) in
+      let next_boundary p = (let rec nb q = if q >= len || boundary b q then q else nb (q + 1) in nat_of_int (nb (int_of_nat p + 1))) in
+      let conv = List.map (function SMatch (a, e) -> M (int_of_nat a, int_of_nat e) | SReject (a, e) -> R (int_of_nat a, int_of_nat e) | SDone -> D) in
+      let model = conv (s_run (nat_of_int len) find_from next_boundary (nat_of_int (4 * len + 8)) fs_init) in
+      if model <> st then begin incr mism; Printf.printf "MISMATCH stage=S7-searcher case=%s pat=%s hay=%s what=next impl=%s model=%s\n" !id !pat !hay (show st) (show model) end;
+      let modelb = conv (r_run (nat_of_int (4 * len + 8)) (rs_init (nat_of_int len) (List.map (fun (a, e) -> (nat_of_int a, nat_of_int e)) !ms))) in
+      bmodel := modelb;
       if List.length st > 2 then incr nontrivial;
       if not (tiles_forward st len b) then viol (Printf.sprintf "forward-steps-do-not-tile-[0,%d]:%s" len (show st));
       let matches = List.filter_map (function M (a, e) -> Some (a, e) | _ -> None) st in
@@ -53,6 +66,7 @@ let run () =
     | "B" :: rest ->
       incr checks;
       let st = parse_steps rest in bsteps := st;
+      if !bmodel <> st then begin incr mism; Printf.printf "MISMATCH stage=S7-searcher case=%s pat=%s hay=%s what=next_back impl=%s model=%s\n" !id !pat !hay (show st) (show !bmodel) end;
       let b = bytes () in let len = Array.length b in
       if not (tiles_backward st len b) then viol (Printf.sprintf "backward-steps-do-not-tile-[0,%d]:%s" len (show st))
     | "X" :: rest ->
